@@ -17,7 +17,9 @@ RULE = ('cases = acyclic rule sets (1-4 rules, rule: references to lower rules) 
         'dangling quotes, huge digit strings, unicode identifiers, nested brackets) or generated from fragments, right '
         'sides literal or well-formed %(name)s; credentials from a recursive generator (every JSON type at every path '
         'position, hostile keys); flat targets with every JSON type; do_raise off/on. L = leaf-only rules whose left side '
-        'certainly cannot be evaluated: must deny. Non-trivial = the rule contains a left side that is not a plain '
+        'certainly cannot be evaluated: must deny. N = rule texts that are not sentences (lone quoted token, lone operator, '
+        'unbalanced parenthesis), alone and referenced from other rules. T = one target mapping kept by the caller and edited '
+        'between calls (key deleted / value replaced): same decision as a fresh equal mapping. Non-trivial = the rule contains a left side that is not a plain '
         'identifier path; distinct = distinct (rules, target, creds).')
 ASSUMPTIONS = ['roles in credentials are a list of strings (the statement\'s precondition)',
                'http:/https: kinds are excluded here: their transport errors are C16\'s subject',
@@ -26,11 +28,11 @@ LEVEL_TEXT = ('Seeded hostile fuzzing with an exception-surface oracle; the inpu
               'fragment-based generator plus a curated alphabet is the appropriate level (no finite enumeration exists).')
 LEVEL_NOTE = 'trusted: the list of documented exceptions taken from the statement; the curated "certainly unevaluable" list'
 PLAN = {'quick': dict(shards=4, wall=60), 'thorough': dict(shards=16, wall=400)}
-MIN = {'evaluations': 5000, 'enforce_calls': 10000, 'hostile_leaves': 5000, 'unevaluable_leaf_rules': 500}
+MIN = {'same_target_comparisons': 500, 'evaluations': 5000, 'enforce_calls': 10000, 'hostile_leaves': 5000, 'unevaluable_leaf_rules': 500}
 ANCHORS = ['oslo_policy._checks:GenericCheck.__call__', 'oslo_policy._checks:GenericCheck._find_in_dict',
            'oslo_policy._checks:RoleCheck.__call__', 'oslo_policy.policy:Enforcer.enforce']
 REQUIRED_ANCHORS = ['oslo_policy.policy:Enforcer.enforce']
-N = {'quick': 30000, 'thorough': 3000000}
+N = {'quick': 90000, 'thorough': 3000000}
 
 # left sides that are certainly neither a Python literal nor (with our credentials) a resolvable path
 UNEVALUABLE = ['class', '1+', '[', '0x', '007', '..', "'a", '"a', 'lambda', '--', '{[1]}', 'a[0]', '{', '1e', '1__0',
@@ -96,6 +98,22 @@ def gen_case(rnd):
     for k in ('t', 't2', 'a.b', 'roles'):
         if rnd.random() < 0.6:
             target[k] = rnd.choice([None, True, 1, 1.5, 'x', "['x']", '', [], {'a': 1}, 'r', 'R', 10 ** 30])
+    if rnd.random() < 0.04:
+        # a rule text that is not a sentence at all (C02 says it denies; here: it must not crash enforcement, alone or
+        # referenced from another rule)
+        bad = rnd.choice(NON_SENTENCES)
+        return dict(kind='N', rules={'n0': bad, 'n1': 'rule:n0 or role:zz', 'n2': 'not rule:n0'}, target=target, creds=creds,
+                    do_raise=rnd.random() < 0.5, hostile=1)
+    if rnd.random() < 0.06:
+        keys = ['t', 't2', 'a.b']
+        edits = []
+        for _ in range(rnd.randint(1, 3)):
+            k = rnd.choice(keys)
+            edits.append(['del', k] if rnd.random() < 0.5 else ['set', k, rnd.choice(['x', 'r', 1, None, 'y'])])
+        rules = {'n0': rnd.choice(['role:%(t)s', 'x:%(t)s', 'u.v:%(t2)s', 'role:r and a:%(a.b)s', 'not role:%(t)s', "'x':%(t)s"])}
+        target = dict(target)
+        target.setdefault('t', 'x')
+        return dict(kind='T', rules=rules, target=target, creds=creds, edits=edits, do_raise=False)
     if rnd.random() < 0.3:
         # leaf-only rule with a certainly unevaluable left side
         lhs = rnd.choice(UNEVALUABLE)
@@ -131,8 +149,49 @@ def gen_case(rnd):
     return dict(kind='R', rules=rules, target=target, creds=creds, do_raise=rnd.random() < 0.5, hostile=hostile)
 
 
+NON_SENTENCES = ["'Member':'Member'", '"admin":"admin"', "'admin'", '"x"', "'%(t)s':'x'", 'not', 'and', '(', ')', 'role:a role:b',
+                 '(role:a', 'role:a)', 'role:a and', 'or role:a', "not 'x'", "('q')", '"a:b" or role:r', "role:r and 'k:v'"]
+
+
+def check_same_target_object(ctx, real, case):
+    """The caller keeps ONE target mapping and edits it between calls (a key deleted, a value replaced): each decision
+    must be the one a fresh, equal mapping gets - and a placeholder whose key has gone must deny, not raise."""
+    policy, enf = real
+    enf.set_rules(policy.Rules.from_dict(case['rules']))
+    other = policy.Enforcer(env.fresh_conf(), use_conf=False)
+    other.set_rules(policy.Rules.from_dict(case['rules']))
+    live = dict(case['target'])
+    ctx.case(['same-target', case['rules'], case['target'], case['edits']], nontrivial=True, stratum='T')
+    for step, edit in enumerate([None] + case['edits']):
+        if edit is not None:
+            if edit[0] == 'del':
+                live.pop(edit[1], None)
+            else:
+                live[edit[1]] = edit[2]
+        for name in case['rules']:
+            out = []
+            # the caller's own mapping goes to the long-lived enforcer; the fresh equal mapping to a second enforcer with
+            # its own check objects, so that the two call sequences cannot influence each other
+            for e_, tgt in ((enf, live), (other, copy.deepcopy(live))):
+                try:
+                    out.append(bool(e_.enforce(name, tgt, copy.deepcopy(case['creds']))))
+                except Exception as e:
+                    out.append('EXC:' + type(e).__name__)
+            ctx.count('same_target_comparisons')
+            if isinstance(out[0], str) and out[0][4:] not in DOCUMENTED:
+                ctx.violation('undocumented-exception-' + out[0][4:], case, {'step': step, 'edit': edit, 'observed': out})
+                return
+            if out[0] != out[1]:
+                ctx.violation('decision-depends-on-target-object-identity', case,
+                              {'rules': case['rules'], 'step': step, 'edit': edit, 'same_object': out[0], 'fresh_equal_mapping': out[1],
+                               'target_now': live})
+                return
+
+
 def check_case(ctx, real, case):
     policy, enf = real
+    if case['kind'] == 'T':
+        return check_same_target_object(ctx, real, case)
     ctx.case([case['rules'], case['target'], case['creds']], nontrivial=True, stratum=case['kind'])
     ctx.count('hostile_leaves', case.get('hostile', 1))
     try:
